@@ -109,6 +109,8 @@ pub struct PropEntry {
     pub emits: &'static str,
     /// the setter refuses the values for which `fails(label)`
     pub rejects: bool,
+    /// the setter takes `&self` (the value is behind a Mutex)
+    pub interior: bool,
     pub init: fn() -> RVal,
     pub gen_val: fn(&mut Src) -> (RVal, String),
     pub doc: Option<&'static str>,
@@ -119,6 +121,15 @@ pub struct SignalEntry {
     pub sigs: &'static [&'static str],
     pub names: &'static [&'static str],
     pub doc: Option<&'static str>,
+}
+
+/// proxies a case keeps between its operations (by interface), and how they cache properties
+pub type Slots = Arc<Mutex<std::collections::HashMap<&'static str, Box<dyn std::any::Any + Send>>>>;
+#[derive(Clone, Default)]
+pub struct PxCtx {
+    pub slots: Option<Slots>,
+    /// 0: the builder's default (lazily), 1: CacheProperties::Yes, 2: CacheProperties::No
+    pub cache: u8,
 }
 
 #[derive(Debug)]
@@ -134,7 +145,7 @@ pub struct IfaceEntry {
     pub spawn: bool,
     pub register: for<'a> fn(&'a zbus::ObjectServer, String, Log) -> BoxFut<'a, zbus::Result<bool>>,
     pub remove: for<'a> fn(&'a zbus::ObjectServer, String) -> BoxFut<'a, zbus::Result<bool>>,
-    pub px: for<'a> fn(&'a Connection, String, usize, Vec<u8>) -> BoxFut<'a, Result<PxOut, String>>,
+    pub px: for<'a> fn(&'a Connection, String, usize, Vec<u8>, PxCtx) -> BoxFut<'a, Result<PxOut, String>>,
     pub bpx: fn(&zbus::blocking::Connection, String, usize, Vec<u8>) -> Result<PxOut, String>,
     pub methods: Vec<MethodEntry>,
     pub props: Vec<PropEntry>,
